@@ -409,6 +409,17 @@ func fullOps(sizes []int, caps []int64) []seq.Op[*st] {
 				return "absent", ""
 			}})
 		}
+		for _, sz := range sizes[1:min(3, len(sizes))] {
+			sz := sz
+			// the caller mutates a cached object (its Size changes) and stores the SAME object again to have it re-accounted
+			o = append(o, seq.Op[*st]{Name: fmt.Sprintf("ResizeAndSetSameObject(%s,size=%d)", k, sz), Enabled: func(s *st) bool { return s.m.find(k) >= 0 && !s.m.unit }, Step: func(s *st) (string, string) {
+				v := s.m.ents[s.m.find(k)].v
+				v.size = sz
+				s.c.set(k, v)
+				s.m.set(k, v)
+				return "", ""
+			}})
+		}
 		o = append(o, seq.Op[*st]{Name: "Get(" + k + ")", Step: func(s *st) (string, string) {
 			return cmp("Get", vstr(s.c.get(k)), mget(s.m, k, true))
 		}})
